@@ -287,3 +287,5 @@ def _large(n, m, dense, reader="load_table"):
 REGRESSIONS += [_large(4096, 1, False), _large(1, 8192, False, "from_hdf5"),
                 _large(4097, 1, True, "parse_table"), _large(1025, 1, True),
                 _large(257, 255, True), _large(65537, 1, True, "from_hdf5")]
+# positions past 2**15 on an axis shorter than 2**16 (narrow index types)
+REGRESSIONS += [_large(40000, 1, True), _large(1, 40001, False, "from_hdf5")]
